@@ -42,7 +42,12 @@ FORCE = (0, 1)
 DRY = (0, 1)
 INPUTS = ("file", "dir", "stdin", "dot", "abs", "unclean", "symlink_follow", "dotfile", "dotdir")
 DOTTED_INPUTS = {"dotfile": b"data.tar", "dotdir": b"in.d"}      # the input's own name holds a dot
-OUTPUTS = ("none", "file", "file_abs", "dir", "dirslash", "dirlink", "stdout", "missing_parent", "parent_file")
+OUTPUTS = ("none", "file", "file_abs", "dir", "dirslash", "dirlink", "stdout", "missing_parent", "parent_file",
+           "dashfile", "updown", "linkcwd")
+# dashfile: `--output ./-` is a file called `-` (only the bare `-` is standard output); updown: a target spelled with `..`;
+# linkcwd: the working directory was entered through a symbolic link whose own parent is another directory, $PWD carries that
+# logical spelling (as after `cd link` in a shell) and the target climbs out with `..` - the operating system's meaning of `..`
+# (the physical parent) is the documented place. (Added after seeded changes C09-11 and C09-10.)
 PRE = ("absent", "file", "dir", "dangling", "link_file", "dangling_noparent", "stem_sibling")
 NAMES = ("none", "plain", "sub", "up", "abs", "dotdot", "dot", "empty", "trail", "longmid", "dots3", "tar", "abc", "hid", "xdot")
 # acceptable names with a dot in them: the output is `<name>.torrent` appended to the whole name
@@ -81,6 +86,8 @@ def valid(c):
         return False      # a second name with the same stem, created first into the same place: needs a dotted name that is used
     if pre != "absent" and out in ("stdout", "missing_parent", "parent_file"):
         return False
+    if out == "linkcwd" and inp not in ("abs", "stdin"):
+        return False      # the run happens in another working directory: the input is named absolutely (or is standard input)
     if pre != "absent" and name in BAD_NAMES:
         return False
     if inp == "stdin" and cause in ("nonutf8_inside", "nonutf8_name", "nonutf8_arg", "dangling_follow", "input_missing", "symlink_root",
@@ -266,11 +273,16 @@ def build(S, c, rng):
     root_lex = ipath if inp != "symlink_follow" else j(w, b"lnk")
     eff_name = nm if nm is not None else (None if inp == "stdin" else os.path.basename(root_lex))
     # the output argument, relative to cwd where relative
-    rel = (lambda p: os.path.relpath(p, cwd))
     out = c["out"]
+    run_cwd = None
+    if out == "linkcwd":
+        os.symlink(j(w, b"d"), j(S, b"elsewhere", b"cwdl"))
+        cwd, run_cwd = j(w, b"d"), j(S, b"elsewhere", b"cwdl")       # physical / as spelled in $PWD
+    rel = (lambda p: os.path.relpath(p, cwd))
     oarg = {"none": None, "file": rel(j(w, b"out.torrent")), "file_abs": j(w, b"abs.torrent"), "dir": rel(j(w, b"d")),
             "dirslash": rel(j(w, b"d")) + b"/", "dirlink": rel(j(w, b"dl")), "stdout": b"-",
-            "missing_parent": rel(j(w, b"nodir", b"o.torrent")), "parent_file": rel(j(w, b"keep.txt", b"o.torrent"))}[out]
+            "missing_parent": rel(j(w, b"nodir", b"o.torrent")), "parent_file": rel(j(w, b"keep.txt", b"o.torrent")),
+            "dashfile": rel(w) + b"/-", "updown": rel(j(w, b"d", b"x")) + b"/../../up.torrent", "linkcwd": b"../viacwd.torrent"}[out]
     # the documented target before looking at the filesystem (plain-name reading of the rule)
     if out == "stdout":
         target = None
@@ -366,7 +378,8 @@ def build(S, c, rng):
         else:
             sargv += [b"--name", sib]
         sibling = dict(argv=sargv, name=sib, final=j(os.path.dirname(final), sib + b".torrent"))
-    return dict(S=S, cwd=cwd, argv=argv, stdin=stdin, stdin_dir=(cause == "stdin_err"), stdout_full=stdout_full, env=env, sibling=sibling,
+    env["PWD"] = os.fsdecode(run_cwd or cwd)
+    return dict(S=S, cwd=cwd, run_cwd=run_cwd or cwd, argv=argv, stdin=stdin, stdin_dir=(cause == "stdin_err"), stdout_full=stdout_full, env=env, sibling=sibling,
                 iarg=iarg, oarg=oarg, name=nm, eff_name=eff_name, plain=plainname, target=target, pl=pl, flags=flags or "-",
                 input_root=(None if inp == "stdin" else os.path.realpath(root_lex) if os.path.lexists(root_lex) else root_lex))
 
@@ -489,11 +502,11 @@ def _one_case(exe, tmp, cell, seed, timeout):
         sib, sib_state = r["sibling"], None
         if sib:
             # first create of the pair: a name with the same stem into the same place (real binary; judged below)
-            rc0, _, err0 = run_bin(exe, sib["argv"], r["cwd"], r["stdin"], None, False, r["env"], timeout=timeout)
+            rc0, _, err0 = run_bin(exe, sib["argv"], r["run_cwd"], r["stdin"], None, False, r["env"], timeout=timeout)
             sib_state = (rc0, os.path.isfile(sib["final"]) and not os.path.islink(sib["final"])
                          and is_torrent(open(sib["final"], "rb").read(), sib["name"]))
         before = snapshot(S)
-        rc, out, err = run_bin(exe, r["argv"], r["cwd"], r["stdin"], os.path.join(Sb, b"w", b"d") if r["stdin_dir"] else None,
+        rc, out, err = run_bin(exe, r["argv"], r["run_cwd"], r["stdin"], os.path.join(Sb, b"w", b"d") if r["stdin_dir"] else None,
                                r["stdout_full"], r["env"], timeout=timeout)
         after = snapshot(S)
         d = diff(before, after)
